@@ -394,6 +394,28 @@ fn spawn_async_ao_list_in_task'''),
 
     fn execute_via_external'''),
     ],
+    'U4n': [
+        ('pipefail-takes-first-failure', IN, '''                if !result.is_success() {
+                    last_failure_exit_code = Some(result.exit_code);
+                }''', '''                if !result.is_success() && last_failure_exit_code.is_none() {
+                    last_failure_exit_code = Some(result.exit_code);
+                }'''),
+        ('pipefail-always-on', IN, 'if shell.options().return_last_failure_from_pipeline {', 'if true {'),
+        ('pipestatus-not-cleared', IN, '''    // Clear our the pipeline status so we can start filling it out.
+    shell.last_pipeline_statuses_mut().clear();
+''', ''),
+        ('pipestatus-skips-stopped-stage', IN, '''                result = ExecutionResult::stopped();
+                shell.set_last_exit_status(result.exit_code.into());
+                shell
+                    .last_pipeline_statuses_mut()
+                    .push(result.exit_code.into());
+''', '''                result = ExecutionResult::stopped();
+                shell.set_last_exit_status(result.exit_code.into());
+'''),
+        ('pipeline-status-is-first-stage', IN, '''            ExecutionWaitResult::Completed(current_result) => {
+                result = current_result;''', '''            ExecutionWaitResult::Completed(current_result) => {
+                if shell.last_pipeline_statuses_mut().is_empty() { result = current_result; }'''),
+    ],
     'U5': [
         ('sub-becomes-add', AR, 'Ok(left.wrapping_sub(right))', 'Ok(left.wrapping_add(right))'),
         ('lt-becomes-le', AR, 'Ok(bool_to_i64(left < right))', 'Ok(bool_to_i64(left <= right))'),
